@@ -88,7 +88,10 @@ func (c *monC02) After(m *Machine, s *Step) *Violation {
 		return nil
 	}
 	switch op.K {
-	case "login", "otplogin", "recend":
+	case "set", "steal", "setcookie", "dropcookie", "o2cb":
+		return nil // harness pokes and the OAuth2 provider's own login: not password knowledge
+	default:
+		// closed world: only the two validate steps may turn a 2FA account's login into a session
 		return violation("C02", "first-factor-alone:"+op.K, "%s request logged in %q although it has a second factor enabled (totp=%v sms=%v)", op.K, after, totpOn, smsOn)
 	case "totpvalidate":
 		m.flag("2fa-completed:totp")
@@ -131,11 +134,11 @@ func (c *monC02) End(m *Machine) *Violation { return nil }
 var kindsC02 = []wk{
 	{"login", 24}, {"otplogin", 5}, {"recstart", 3}, {"recend", 4}, {"totpvalidate", 14}, {"smsvalidate", 16}, {"smsresend", 8},
 	{"advance", 10}, {"newsess", 3}, {"logout", 2}, {"visit", 3}, {"smssetup", 2}, {"smsconfirm", 1}, {"totpsetup", 1}, {"get", 1},
-	{"snip:2fa", 10}, {"snip:setupcarry", 5}, {"snip:rec2fa", 5}, {"snip:numberswap", 4}, {"setphone", 2}, {"snip:recover", 3}, {"snip:otp", 1}, {"lock", 1}, {"unlock", 1},
+	{"snip:2fa", 10}, {"snip:setupcarry", 5}, {"snip:rec2fa", 5}, {"snip:numberswap", 4}, {"setphone", 2}, {"snip:recover", 3}, {"snip:otp", 1}, {"lock", 1}, {"unlock", 1}, {"register", 4},
 }
 
 var profC02 = profile{
-	must: []string{"auth"}, may: []string{"lock", "logout", "otp", "recover", "remember", "confirm"},
+	must: []string{"auth"}, may: []string{"lock", "logout", "otp", "recover", "remember", "confirm", "register"},
 	setups: []string{"totp", "sms", "recovery"}, kinds: kindsC02, minOps: 14, maxOps: 32,
 	accts: [2]int{3, 4}, browsers: [2]int{1, 2}, middlewares: []string{"", "", "remember"},
 	faultPct:  6, // both C02 rules are safety rules: they hold whichever backend call fails
